@@ -268,6 +268,16 @@ def gen_C09(rng, tier):
         for t in ts: p.add('obs %s' % t)
         p.tag('concat')
         progs.append(p)
+    # --- BackPropagate as an entry point: well-formed graphs of every kind (a sample of the gradient generators'
+    # programs) must be accepted — an error or panic there is a precondition invented by the implementation
+    import grad as _grad
+    for g in (_grad.gen_C07, _grad.gen_C02, _grad.gen_C01):
+        got = g(rng, 'quick')
+        rng.shuffle(got)
+        for q in got[:(40 if tier == 'quick' else 400)]:
+            q.name = 'c09_g_' + q.name
+            q.tags = set(q.tags) | {'valid-graphs'}
+            progs.append(q)
     # --- components
     for i in range(80 if tier == 'quick' else 2000):
         p = Prog('c09_x%d' % i)
@@ -470,10 +480,10 @@ def gen_C10(rng, tier):
         def snap():
             for t, _ in live[-7:]: p.add('obs %s' % t)
         for step in range(rng.randint(4, 10)):
-            t, sh = rng.choice(live[-3:])
+            t, sh = rng.choice([e for e in live if e[1] is not None][-3:])
             r = len(sh)
             ops = ['unsqueeze', 'broadcast']
-            if r >= 1: ops += ['along', 'along', 'flatten', 'slice', 'reshape']
+            if r >= 1: ops += ['along', 'along', 'flatten', 'slice', 'reshape', 'concat-fork', 'patch-fork']
             if r >= 2: ops += ['transpose']
             if 1 in sh: ops += ['squeeze']
             o = rng.choice(ops)
@@ -491,6 +501,27 @@ def gen_C10(rng, tier):
                 nsh = rng.choice(_fwd.factorizations(prod(sh), 5)); nt = p.bind('reshape %s %s' % (t, ints(nsh) if nsh else '-'))
             elif o == 'slice':
                 idx = _fwd.rand_index(rng, sh); nt = p.bind('slice %s %s' % (t, ranges(idx) if idx else '-')); nsh = _fwd.sliced_shape(sh, idx)
+            elif o == 'concat-fork':
+                # two concatenations that both start from the same (possibly already concatenated) tensor
+                d = rng.randrange(r)
+                extra = []
+                for k in range(2):
+                    es = list(sh); es[d] = rng.randint(1, 2)
+                    extra.append(p.tensor(es, [100.0 * (k + 1) + v for v in range(prod(es))]))
+                c1 = p.bind('concat %s,%s %d' % (t, extra[0], d))
+                c2 = p.bind('concat %s,%s %d' % (t, extra[1], d))
+                nsh = list(sh); nsh[d] = sh[d] + 1
+                e3 = list(sh); e3[d] = 1
+                nt = p.bind('concat %s,%s %d' % (t, p.tensor(e3, [7.0] * prod(e3)), d))
+                live.append((c1, None))
+                live.append((c2, None))
+            elif o == 'patch-fork':
+                blk = [rng.randint(1, v) for v in sh]
+                srcs = [p.tensor(blk, [200.0 * (k + 1) + v for v in range(prod(blk))]) for k in range(2)]
+                idx = [(0, b) for b in blk]
+                p1 = p.bind('patch %s %s %s' % (t, ranges(idx), srcs[0]))
+                nt = p.bind('patch %s %s %s' % (t, ranges(idx), srcs[1])); nsh = list(sh)
+                live.append((p1, None))
             else:
                 lead = [rng.randint(1, 2) for _ in range(rng.randint(0, 2))]
                 nsh = lead + [(rng.randint(2, 3) if v == 1 and rng.random() < 0.5 else v) for v in sh]
